@@ -615,6 +615,10 @@ class Model:
             return self.index(ev.ev(args[0]), ev.ev(args[1]))
         if re.search(r"RangeInclusive::<Idx>::new$", d):
             return ("range", ev.ev(args[0]), ev.ev(args[1]) + 1)
+        if re.search(r"ops::range::Range(Inclusive|From|To|ToInclusive)?::<Idx>::contains$", d) and len(args) == 2:
+            r, v = ev.ev(args[0]), ev.ev(args[1])
+            if isinstance(r, tuple) and r[0] == "range" and isinstance(v, int):
+                return 1 if (r[1] <= v and (r[2] is None or v < r[2])) else 0
         m = re.search(r"<impl u8>::(is_ascii\w*)$|<impl char>::(is_ascii\w*)$", d)
         if m and (m.group(1) or m.group(2)) in ASCII:
             return 1 if ASCII[m.group(1) or m.group(2)](ev.ev(args[0])) else 0
